@@ -566,6 +566,7 @@ def run_cases(prop, cases):
     Returns (outs, compiled_idx, bad_check, failed, err)."""
     outs = vlib.run_harness("prog", [harness_case(c) for c in cases])
     compiled = [i for i, o in enumerate(outs) if o.get("compile") == "ok"]
+    # a panic while compiling is C04's subject: the program yields no run to judge (outs[i]["compile"] == "panic")
     failed = [i for i, o in enumerate(outs) if any(k in o for k in ("panic", "crash", "timeout", "harness_error"))]
     terms, keep = [], []
     for i in compiled:
